@@ -309,11 +309,62 @@ fn check_merge_ident(ctx: &mut Ctx, e1: u8, az1: &[u16], e2: u8, az2: &[u16], eq
     ctx.obs.count("merges_equal_to_reference", 1);
 }
 
+/// Merges of merges: `(a + b) + (c + d)` and `(a + b) + c`.  A merged sweep is a sweep like any
+/// other; the result must again be the stable sort of left ++ right (ties: left's radials first).
+fn check_nested_merge(ctx: &mut Ctx, e: u8, lists: [&[u16]; 4], shape: u64) {
+    ctx.obs.case(shape);
+    let mk = |base: i64, az: &[u16]| -> Vec<Radial> { az.iter().enumerate().map(|(i, &z)| mk_radial(base + i as i64, z, e)).collect() };
+    let (a, b, c, d) = (mk(10_000, lists[0]), mk(20_000, lists[1]), mk(30_000, lists[2]), mk(40_000, lists[3]));
+    let replay = json!({"op": "merge of merges", "elevation": e, "a": lists[0], "b": lists[1], "c": lists[2], "d": lists[3]});
+    let r = mon::catch(|| {
+        let ab = Sweep::new(e, a.clone()).merge(Sweep::new(e, b.clone()))?;
+        let cd = Sweep::new(e, c.clone()).merge(Sweep::new(e, d.clone()))?;
+        let abc = ab.clone().merge(Sweep::new(e, c.clone()))?;
+        let abcd = ab.merge(cd)?;
+        Ok::<_, nexrad_model::result::Error>((abc, abcd))
+    });
+    let (abc, abcd) = match r {
+        Ok(Ok(x)) => x,
+        Ok(Err(err)) => {
+            ctx.obs.violation("merge rejects equal elevation numbers", format!("{err:?} (merge of merges)"), replay);
+            return;
+        }
+        Err(p) => {
+            ctx.obs.violation(format!("merge {}", p.signature()), p.message, replay);
+            return;
+        }
+    };
+    let ids = |v: &[Radial]| -> Vec<(u16, i64)> { v.iter().map(|r| (r.azimuth_number(), r.collection_timestamp())).collect() };
+    let stable = |parts: &[&Vec<Radial>]| -> Vec<(u16, i64)> {
+        let mut w: Vec<(u16, i64)> = parts.iter().flat_map(|p| ids(p)).collect();
+        w.sort_by_key(|x| x.0);
+        w
+    };
+    for (name, got, want) in [("(a+b)+c", ids(abc.radials()), stable(&[&a, &b, &c])), ("(a+b)+(c+d)", ids(abcd.radials()), stable(&[&a, &b, &c, &d]))] {
+        if got != want {
+            let mut gs: Vec<i64> = got.iter().map(|x| x.1).collect();
+            let mut ws: Vec<i64> = want.iter().map(|x| x.1).collect();
+            gs.sort();
+            ws.sort();
+            let sig = if gs != ws {
+                "merge loses or duplicates radials"
+            } else if got.windows(2).all(|w| w[0].0 <= w[1].0) {
+                "merge orders ties not first-then-second"
+            } else {
+                "merge result not ordered by azimuth number"
+            };
+            ctx.obs.violation(sig, format!("{}: expected {:?}, observed {:?}", name, want, got), replay);
+            return;
+        }
+    }
+    ctx.obs.count("merges_of_merges_equal_to_reference", 1);
+}
+
 pub fn run(ctx: &mut Ctx) {
     ctx.rule = "grouping: one case per elevation sequence and identity pattern (every radial unique, or equal radials adjacent / recurring / all equal per elevation); merge: one case per ordered pair of azimuth lists; \
 distinct = distinct elevation strings / azimuth-list pairs; oracle = 10-line reference run-splitter and std stable sort of first++second"
         .into();
-    ctx.exhaustive = Some("every elevation string of length 0..=8 over {1,2,3} (9,841) under four identity patterns; every pair of azimuth lists of length <= 3 over {1,2,3} (1,600 pairs) for equal and unequal elevations".into());
+    ctx.exhaustive = Some("every elevation string of length 0..=8 over {1,2,3} (9,841) under four identity patterns; every pair of azimuth lists of length <= 3 over {1,2,3} (1,600 pairs) for equal and unequal elevations; every quadruple of lists of length <= 2 over {1,2} merged as (a+b)+c and (a+b)+(c+d)".into());
     ctx.floor_evaluations = 10_000;
     let mut rng = Rng::derive(ctx.seed, 9, 0);
 
@@ -376,6 +427,20 @@ distinct = distinct elevation strings / azimuth-list pairs; oracle = 10-line ref
             check_merge(ctx, 3, a, 4, b, mix(3, mix(i as u64, j as u64)));
             if ctx.obs.samples.len() < 4 && i == 17 && j == 5 {
                 ctx.obs.sample(json!({"op": "merge", "first": a, "second": b}));
+            }
+        }
+    }
+
+    // small-scope merges of merges: every quadruple of azimuth lists of length <= 2 over {1,2}
+    {
+        let small: Vec<Vec<u16>> = vec![vec![], vec![1], vec![2], vec![1, 1], vec![1, 2], vec![2, 1], vec![2, 2]];
+        for (i, a) in small.iter().enumerate() {
+            for (j, b) in small.iter().enumerate() {
+                for (k, c) in small.iter().enumerate() {
+                    for (l, d) in small.iter().enumerate() {
+                        check_nested_merge(ctx, 7, [a, b, c, d], mix(23, ((i * 7 + j) * 7 + k) as u64 * 7 + l as u64));
+                    }
+                }
             }
         }
     }
@@ -454,5 +519,11 @@ distinct = distinct elevation strings / azimuth-list pairs; oracle = 10-line ref
         let e1 = rng.u8();
         let e2 = if rng.chance(3, 4) { e1 } else { rng.u8() };
         check_merge_ident(ctx, e1, &a, e2, &b, i % 4 == 0, mix(5, i));
+        if i % 4 == 1 {
+            // the same lists cut in four: merges of merges, with ties across every part
+            let (a1, a2) = a.split_at(a.len() / 2);
+            let (b1, b2) = b.split_at(b.len() / 2);
+            check_nested_merge(ctx, e1, [a1, b1, a2, b2], mix(6, i));
+        }
     }
 }
